@@ -1303,6 +1303,7 @@ def malformed(ctx, code, rng):
             ctx.count(1, branch="malformed")
         return
     out = ctx.driver([f"infretis {c['off']} {tok_list(c['locks'])} {tok_mat(c['W'])}" for c in cases])
+    tie_cases = []
     for c, r, mo in zip(cases, res, out):
         kind, P, cbr = r[0], r[1], r[2]
         body, _, brs = mo.partition(" | ")
@@ -1311,7 +1312,8 @@ def malformed(ctx, code, rng):
         ctx.count(1, branch="malformed:" + mkind)
         rep = {"kind": "malformed", "off": c["off"], "W": c["W"], "locks": c["locks"]}
         if tie_sensitive(c["off"], c["W"], c["locks"]):
-            ctx.hit("malformed:argsort-tie-between-different-rows-not-compared")
+            # audit pass: no longer skipped - the model is run with the code's own argsort results (below)
+            tie_cases.append(c)
             continue
         ctx.hit("malformed:compared")
         if mkind != kind:
@@ -1330,6 +1332,22 @@ def malformed(ctx, code, rng):
             Mm, _ = parse_mat_f(mt, 1)
             if np.shape(Mm) != np.shape(P) or np.abs(np.asarray(P, dtype=float) - np.array(Mm)).max() > TOL:
                 ctx.disagree({"fn": "inf_retis value (malformed)", **rep}, "values differ", body[:200])
+
+
+    # two different idle rows share an argsort key: the code's outcome depends on numpy's tie order, so the model
+    # is run with the argsort results the code really got (Infretis.Perm.infRetisGiven, driver op `given`)
+    from props import c02_ext as X
+    recs = [X.code_prep(c["W"], c["locks"], c["off"]) for c in tie_cases]
+    lines = [X.given_line(c, rec["sorts"][0][1], rec["sorts"][1][1]) if len(rec["sorts"]) >= 2 else "noop"
+             for c, rec in zip(tie_cases, recs)]
+    out2 = ctx.driver(lines) if lines else []
+    for c, rec, mo in zip(tie_cases, recs, out2):
+        rep = {"kind": "malformed", "off": c["off"], "W": c["W"], "locks": c["locks"]}
+        if len(rec["sorts"]) < 2:
+            ctx.hit("malformed:tie-case-raised-before-argsort-not-compared")
+            continue
+        ctx.hit("malformed:tie-case-compared-with-code-order")
+        X.compare_given(ctx, rep, rec, X.parse_given(mo), "malformed")
 
 
 def corpus_cases():
@@ -1401,14 +1419,18 @@ def _run_core(ctx):
     ctx.extra["timing_s"] = {"staircase01": round(t1 - t0, 2), "weighted": round(t2 - t1, 2),
                              "sub_functions": round(t3 - t2, 2), "malformed": round(t4 - t3, 2)}
     ctx.assumptions += [
-        "np.argsort tie order is unspecified (numpy default sort is not stable; AVX-512 argsort on this machine is "
-        "unstable even for n<=16); the model sorts stably; in-family results are tie-order independent; generators cover ties",
+        "np.argsort tie order is unspecified (numpy default sort is not stable: on this machine ~6 % of 8-ensemble "
+        "states with free weights are sorted into another row order than the model's stable sort); assumed is only that "
+        "each argsort call returns a permutation that sorts its keys (checked on every logged call); the pipeline "
+        "theorems hold for every such result (infRetis_any_tie_order*), and the tie runs the model with the code's own "
+        "argsort results (driver op `given`)",
         "longdouble rounding not modelled; tolerance 1e-9",
         "Monte-Carlo branch (non-row-constant blocks > 12) outside exactness: only the branch decision is checked",
         "exactness theorems are over Rat; float cancellation inside fast_glynn_perm/permanent_prob (longdouble) is "
         "outside the model; one fixed ill-conditioned witness is evaluated each run as known finding",
-        "malformed (out-of-family) inputs are compared model-vs-code only when no two different idle rows share an "
-        "argsort key (otherwise the code's outcome depends on numpy's tie order)",
+        "malformed (out-of-family) inputs in which two different idle rows share an argsort key (the code's outcome "
+        "then depends on numpy's tie order) are compared through Infretis.Perm.infRetisGiven with the argsort results "
+        "the code really got",
         "np.allclose(…, 1) (rtol 1e-5) is modelled as exact equality with 1; on malformed inputs an ok/err:assert "
         "difference is only reported when the code's matrix is doubly stochastic to 1e-12",
         "weights are integers (exact in float64 and as Lean rationals); conditioning: non-row-constant (glynn) blocks "
